@@ -61,7 +61,8 @@ Print Assumptions C08_ownership_facts.
 (* ---- non-interference ---- *)
 
 (* rely/guarantee form: every operation (Core.Write with the JSON or console encoder, With,
-   a Logger call with caller/stack capture, zap.Stack), whatever clean objects and whatever
+   a Logger call with caller/stack capture, zap.Stack, Core.Check + Write without a Logger),
+   whatever clean objects and whatever
    not-already-owned buffers its Gets return, never touches a buffer it does not own, frees each
    buffer once, puts back only clean objects, and returns exactly its specification *)
 Theorem C08_operation : forall o ow, safe (op_prog o) ow (fun _ r => r = op_spec o).
@@ -73,6 +74,17 @@ Print Assumptions C08_operation.
 Theorem C08_observe : forall h adv o, observe h adv o = inl (op_spec o).
 Proof. exact observe_spec. Qed.
 Print Assumptions C08_observe.
+
+(* per-entry state of a recycled CheckedEntry never outlives its entry: a Core.Check(ent, nil).Write()
+   driven without a zap.Logger (exp/zapslog's Handler, direct zapcore users - nothing on that path
+   assigns ErrorOutput or the hook) makes nothing observable but the sink writes of its own cores,
+   after any history: no write on an earlier Logger's ErrorOutput (not even when one of its cores
+   fails), no earlier entry's hook, no earlier entry's core, no re-use diagnostic *)
+Theorem C08_bare_check_silent : forall h adv cores ent fs,
+  exists evs, observe h adv (OCheck cores None ent fs) = inl (OutEvents evs) /\
+              Forall (fun ev => exists k b, ev = SinkWrite k b) evs.
+Proof. exact bare_check_silent. Qed.
+Print Assumptions C08_bare_check_silent.
 
 Theorem C08_history_independent : forall h1 h2 adv1 adv2 o, observe h1 adv1 o = observe h2 adv2 o.
 Proof. exact history_independent. Qed.
@@ -150,6 +162,23 @@ Example C08_dirty_checked_entry_is_harmless :
                               pl_ce := [{| ce_ent := ex_ent; ce_errout := true; ce_dirty := true; ce_after := Some 9; ce_cores := [ex_cons; ex_cons] |}];
                               pl_errc := []; pl_errz := []; pl_stack := [] |}; sh_next := 0 |})
   = inl (op_spec (OLog ex_log ex_ent [5; 6] [])).
+Proof. vm_compute. reflexivity. Qed.
+(* (c') ... also for a bare Check + Write (no Logger overwrites ErrorOutput) whose second core fails:
+        the stale error output, hook and cores stay silent *)
+Definition ex_bad : core := {| co_enc := ex_enc; co_console := true; co_fail := true |}.
+Example C08_stale_error_output_is_harmless :
+  snd (exec (op_prog (OCheck [ex_json; ex_bad] None ex_ent [])) [1]
+            {| sh_pools := {| pl_json := []; pl_buf := []; pl_slice := [];
+                              pl_ce := [{| ce_ent := ex_ent; ce_errout := true; ce_dirty := false; ce_after := Some 9; ce_cores := [ex_cons; ex_cons] |}];
+                              pl_errc := []; pl_errz := []; pl_stack := [] |}; sh_next := 0 |})
+  = inl (OutEvents [SinkWrite 0 (ascii [123; 34; 108; 34; 58; 34; 105; 34; 44; 34; 109; 34; 58; 34; 104; 34; 125; 10]%N)]).
+Proof. vm_compute. reflexivity. Qed.
+(*      and reset() is what does it: Write on the same entry as the pool held it reports the failure on
+        the earlier Logger's error output and fires the earlier hook *)
+Example C08_unreset_checked_entry_is_observable :
+  snd (exec (run_m (ce_write {| ce_ent := ex_ent; ce_errout := true; ce_dirty := false; ce_after := Some 9; ce_cores := [ex_bad] |} []) OutEvents)
+            [] sh_init)
+  = inl (OutEvents [ErrOut; Hook 9]).
 Proof. vm_compute. reflexivity. Qed.
 (* (d) a Stack whose storage were empty makes Capture's growth loop diverge *)
 Example C08_empty_storage_diverges :
